@@ -100,8 +100,6 @@ impl Block {
             (r matches Ok(v) ==> severity_spec(*self) == Ok::<BlockSeverity, anyhow::Error>(v)), // [V9.post.severity]
             (r is Err <==> severity_spec(*self) is Err), // [V9.post.bad_severity_is_err]
 //@dropcall rule=E1 name=context
-//@edit rule=ghost before=<<self.attributes>>
-        broadcast use vstd::std_specs::hash::group_hash_axioms, group_attr;
 //@closure rule=E12 find=<<|s|>> params=<<|s: &String|>> ret=<<res: anyhow::Result<BlockSeverity>>>
             ensures
                 (res matches Ok(v) ==> severity_of_str(s@) == Some(v)),
